@@ -84,10 +84,11 @@ type Conn struct {
 	failed      bool
 
 	// transient faults (the connection stays usable afterwards):
-	TempReadAt   int // the k-th Read call returns (0, ErrTemporary) once
-	TempReadFrom int // every Read call from the k-th on returns (0, ErrTemporary): a deadline that has passed for good
-	TempWriteAt  int // the k-th Write call takes half of its bytes and returns (n, ErrTemporary) once
-	tempFired    int
+	TempReadAt    int // the k-th Read call returns (0, ErrTemporary) once
+	TempReadFrom  int // every Read call from the k-th on returns (0, ErrTemporary): a deadline that has passed for good
+	TempWriteAt   int // the k-th Write call takes half of its bytes and returns (n, ErrTemporary) once
+	TempWriteMore int // ... and so do the next TempWriteMore Write calls (a peer that stays slow)
+	tempFired     int
 
 	// SyncWrites: the transport has no buffer of its own (net.Pipe, a flow-controlled tunnel) and the
 	// client writes a message completely before it reads: a server Write does not return while client
@@ -284,7 +285,7 @@ func (c *Conn) Write(p []byte) (int, error) {
 	if c.closed {
 		return 0, net.ErrClosed
 	}
-	if c.TempWriteAt > 0 && c.writes == c.TempWriteAt && len(p) > 1 {
+	if c.TempWriteAt > 0 && c.writes >= c.TempWriteAt && c.writes <= c.TempWriteAt+c.TempWriteMore && len(p) > 1 {
 		n := len(p) / 2
 		c.out = append(c.out, p[:n]...)
 		c.tempFired++
@@ -552,6 +553,14 @@ type Stats struct {
 	Reads, Writes, Consumed, CloseCalls, AfterEnd int
 	Closed, Failed, Blocked                       bool
 	Pending                                       int
+}
+
+// InterruptWrites arms the temporary write fault on a live connection: the at-th Write call from now
+// on, and the more calls after it, take half of their bytes and report a timeout.
+func (c *Conn) InterruptWrites(at, more int) {
+	c.mu.Lock()
+	defer c.mu.Unlock()
+	c.TempWriteAt, c.TempWriteMore = c.writes+at, more
 }
 
 func (c *Conn) Stats() Stats {
